@@ -152,6 +152,13 @@ def r07_2(chk, u3, u1):
             continue
         unpack = [s for s in lp.body if isinstance(s, ast.Assign) and isinstance(s.targets[0], ast.Tuple)]
         order = norm(unpack[0].targets[0]).strip('()') if unpack else None
+        if order is None:
+            # for x, y, fx, fy, fz in self.forces  (with or without enumerate)
+            tg = lp.target
+            if isinstance(lp.iter, ast.Call) and getattr(lp.iter.func, 'id', '') == 'enumerate' and isinstance(tg, ast.Tuple) and len(tg.elts) == 2:
+                tg = tg.elts[1]
+            if isinstance(tg, ast.Tuple):
+                order = norm(tg).strip('()')
         want_order = apps.get(lst, '').strip('[]')
         chk.ob('R07.2', order == want_order and order == 'x,y,fx,fy,fz', PANEL, fname, 'tuple order of ' + lst, expected=want_order, got=order,
                sample='%s entries unpacked as (%s), stored by add_force as [%s]' % (lst, order, want_order))
@@ -173,15 +180,22 @@ def r07_2(chk, u3, u1):
                 if mm:
                     branches[int(mm.group(1))] = node.body
                 node = node.orelse[0] if len(node.orelse) == 1 and isinstance(node.orelse[0], ast.If) else None
+        # the load factor may be applied once after the dispatch (fpt = fpt*inc) instead of in every branch
+        after = [st for st in lp.body if (isinstance(st, ast.Assign) and norm(st.targets[0]) == 'fpt' and norm(st.value) in ('fpt*inc', 'inc*fpt'))
+                 or (isinstance(st, ast.AugAssign) and norm(st.target) == 'fpt' and isinstance(st.op, ast.Mult) and norm(st.value) == 'inc')]
         for dv, body in sorted(branches.items()):
             val = [st.value for st in body if isinstance(st, ast.Assign) and norm(st.targets[0]) == 'fpt']
             txt = norm(val[0]) if val else None
+            if txt is not None and len(after) == 1:
+                txt = txt + '*inc'
             row = {3: 'np.array([[fx,fy,fz]])', 5: 'np.array([[fx,fy,fz,0,0]])', 1: 'np.array([[fz]])'}.get(dv)
             want = row if inc_deg == 0 else row + '*inc'
             alt = 'inc*' + row
             chk.ob('R07.2', txt in (want, alt), PANEL, fname, 'force row for dofs=%d in %s' % (dv, lst), expected=want, got=txt,
                    sample='%s: fpt = %s' % (lst, txt))
         ninc = sum(1 for n in ast.walk(lp) if isinstance(n, ast.Name) and n.id == 'inc')
+        if len(after) == 1 and ninc == 1:
+            ninc = max(1, len(branches))       # applied once to whatever row the dispatch chose: degree one in every branch
         chk.ob('R07.2', ninc == inc_deg * max(1, len(branches)), PANEL, fname, 'degree in inc of ' + lst,
                expected='load factor used %s' % ('never' if inc_deg == 0 else 'exactly once per branch'), got=ninc)
         for dv in dofs_vals:
